@@ -5,6 +5,7 @@ CONSTANTS
   NoConn = NoConn
   Listeners = @@LISTENERS@@
   CloseOnShutdown = @@COS@@
+  ReduceMem = @@RMU@@
   FlushOnStop = @@FLUSH@@
   AtomicIdleClose = @@ATOMIC@@
   IdleWhenDrained = @@DRAINED@@
